@@ -419,6 +419,7 @@ func runCase(c *Case) []string {
 type parReq struct {
 	Group  []parMember `json:"group,omitempty"`
 	Multis []*Built    `json:"multis,omitempty"`
+	Node   *nodeReq    `json:"node,omitempty"`
 	Rounds int         `json:"rounds"`
 }
 type parRep struct {
@@ -434,9 +435,19 @@ func childMain() {
 		line, err := in.ReadBytes('\n')
 		if len(bytes.TrimSpace(line)) > 0 {
 			var q parReq
-			bad := json.Unmarshal(line, &q) != nil || (len(q.Group) == 0) == (len(q.Multis) == 0)
+			bad := json.Unmarshal(line, &q) != nil
+			kinds := 0
+			for _, present := range []bool{len(q.Group) > 0, len(q.Multis) > 0, q.Node != nil} {
+				if present {
+					kinds++
+				}
+			}
+			bad = bad || kinds != 1
 			for _, m := range q.Group {
 				bad = bad || m.Case == nil || len(m.Fresh) != len(m.Case.Calls)
+			}
+			if q.Node != nil {
+				q.Multis = q.Node.Txs // same shape checks
 			}
 			for _, m := range q.Multis {
 				bad = bad || m == nil || len(m.Idx) != len(m.Want) || len(m.Idx) != len(m.Sig) || len(m.Idx) != len(m.Wit) || len(m.Idx) != len(m.Kind)
@@ -448,6 +459,8 @@ func childMain() {
 			var res string
 			if len(q.Group) > 0 {
 				res = runDigestsParallel(q.Group, q.Rounds)
+			} else if q.Node != nil {
+				res = runNodeChild(q.Node, q.Rounds)
 			} else {
 				res = runSpendsParallel(q.Multis, q.Rounds)
 			}
@@ -518,6 +531,10 @@ func parStop() {
 		pc.cmd.Wait()
 		pc = nil
 	}
+	if nodeDir != "" {
+		os.RemoveAll(nodeDir)
+		nodeDir = ""
+	}
 }
 
 // askChild: bad = a wrong digest / verdict under concurrency; crash = the child died / hung on this request.
@@ -564,7 +581,14 @@ func askChild(q *parReq) (bad, crash string) {
 	if werr != nil {
 		status = werr.Error()
 	}
-	reason := strings.TrimSpace(p.errb.String())
+	// (the node prints a line per rejected block - expected for the blocks that carry a bad signature)
+	var kept []string
+	for _, l := range strings.Split(p.errb.String(), "\n") {
+		if !strings.HasPrefix(l, "VerifyScript failed") {
+			kept = append(kept, l)
+		}
+	}
+	reason := strings.TrimSpace(strings.Join(kept, "\n"))
 	if i := strings.Index(reason, "\n\n"); i > 0 {
 		reason = reason[:i] // the first paragraph: "fatal error: …" / "panic: …"
 	}
@@ -646,13 +670,14 @@ func replay(path string) {
 		os.Exit(3)
 	}
 	var probe struct {
-		E2E   *E2E     `json:"e2e"`
-		DScr  *string  `json:"delsig_script"`
-		DSig  *string  `json:"delsig_sig"`
-		Multi []*Multi `json:"multi"`
-		Group []*Case  `json:"group"`
-		Life  *Life    `json:"life"`
-		LifeM *LifeM   `json:"lifemulti"`
+		E2E   *E2E       `json:"e2e"`
+		DScr  *string    `json:"delsig_script"`
+		DSig  *string    `json:"delsig_sig"`
+		Multi []*Multi   `json:"multi"`
+		Group []*Case    `json:"group"`
+		Life  *Life      `json:"life"`
+		LifeM *LifeM     `json:"lifemulti"`
+		Node  *NodeBlock `json:"node"`
 	}
 	if json.Unmarshal(doc.Replay, &probe) == nil && probe.E2E != nil {
 		runE2E(probe.E2E)
@@ -665,6 +690,10 @@ func replay(path string) {
 	}
 	if len(probe.Group) > 0 {
 		runGroup(probe.Group, 60)
+		return
+	}
+	if probe.Node != nil {
+		runNode(probe.Node, 200)
 		return
 	}
 	if json.Unmarshal(doc.Replay, &probe) == nil && probe.Life != nil {
@@ -774,6 +803,10 @@ func main() {
 	//     object and with one goroutine per input
 	multiStreams(g)
 	lap("4c-multi-input-multi-check")
+	// 4c'. whole blocks through the node's own caller of the digest functions (Chain.ProcessBlockTransactions)
+	nodeStreams(g)
+	lap("4c2-blocks-through-commitTxs")
+	secs["4c2-of-which-in-the-node"] = float64(int(nodeChildSecs*10)) / 10
 	// 4d. histories over several transaction objects: AllocVerVars / digest requests or whole spends / Clean, interleaved
 	lifeStreams(g)
 	lap("4d-lifecycle-across-objects")
